@@ -35,7 +35,13 @@ the bid-path theorems are the `v1_…` theorems at the end; they hold without ex
                                                                         the amount the bidder asked to pay, no slack)
 * "when the auction ends the proceeds are fully distributed …"        → `close_proceeds_distributed` (burn + collector +
                                                                         keeper + initiator + pool + booked fees = target,
-                                                                        unsold collateral to the owner)
+                                                                        unsold collateral to the owner); one theorem per
+                                                                        distribution branch of the close path, each with
+                                                                        "no unaccounted remainder stays in custody":
+                                                                        `vault_close_distributes` (bid.go:89-101,161-190),
+                                                                        `external_close_distributes` (bid.go:122-158),
+                                                                        `lend_close_distributes` (bid.go:191-202 →
+                                                                        liquidate.go:722-813, + `lend_close_split`)
 * the band in EVERY reachable state, emergency shutdown included       → `price_in_band_every_reachable_state` (+ what the shutdown
                                                                         iterator does per initiator kind:
                                                                         `esm_leaves_nonvault_auction_untouched_past_end`,
@@ -316,6 +322,85 @@ theorem close_proceeds_distributed (e : Env) (hw : WfEnv e) (s s' : St) (a : Auc
         rw [this] at hc; cases hc
     · cases h
 
+/-- **vault-initiated close, branch `bid.go:89-101,161-190`** — the closing bid burns `target − penalty`, pays the keeper of a
+keeper-initiated liquidation `⌊incentive·penalty⌋`, sends the rest of the penalty to the collector (and adds it to the collector's
+net-fee record), moves nothing to initiator / pool / lend reserve, books nothing — **and no unaccounted remainder stays in
+custody**: afterwards the module account holds exactly the collateral that is not this auction's, and of the debt denomination
+exactly what is not this auction's plus the booked fees (minus reserve draws that were silently skipped, `short`). -/
+theorem vault_close_distributes (e : Env) (hw : WfEnv e) (hk : e.kind = .vault) (s s' : St) (who : Nat) (amt dt : Int)
+    (hi : Inv e s) (hdt : 0 ≤ dt) (h : bidE e s who amt dt = .ok s') (hc : s'.auc = none) :
+    s'.burned = s.burned + (e.target - e.fee) ∧
+    s'.bank.get .keeper .debt = s.bank.get .keeper .debt + cutOf e e.isKeeper ∧
+    s'.bank.get .collector .debt = s.bank.get .collector .debt + (e.fee - cutOf e e.isKeeper) ∧
+    s'.netFees = s.netFees + (e.fee - cutOf e e.isKeeper) ∧
+    0 ≤ cutOf e e.isKeeper ∧ cutOf e e.isKeeper ≤ e.fee ∧
+    s'.bank.get .initiator .debt = s.bank.get .initiator .debt ∧ s'.bank.get .pool .debt = s.bank.get .pool .debt ∧
+    s'.bank.get .lendres .debt = s.bank.get .lendres .debt ∧ s'.booked = s.booked ∧ s'.extFees = s.extFees ∧
+    s'.bank.get .auction .coll = s'.otherC ∧ s'.bank.get .auction .debt + s'.short = s'.otherD + s'.booked := by
+  obtain ⟨hinv, s2, s3, hd, e1, e2, e3, e4, e5, _, f1, f2, f3, f4, f5, _⟩ := bidE_close hw hi hdt h hc
+  obtain ⟨v1, v2, _, v4, v5, v6, v7, _, v9, v10, v11, v12, v13, _⟩ := distribute_vault hk hd
+  obtain ⟨_, _, c3, c4⟩ := hinv.closed hc
+  refine ⟨by rw [f1, v4, e1], ?_, ?_, by rw [f2, v7, e2], v1, v2, ?_, ?_, ?_, by rw [f4, v12, e4], by rw [f3, v13, e3], c3, c4⟩
+  · rw [f5 _ _ (by decide), v5, e5 _ _ (by decide) (by decide) (by simp)]
+  · rw [f5 _ _ (by decide), v6, e5 _ _ (by decide) (by decide) (by simp)]
+  · rw [f5 _ _ (by decide), v9, e5 _ _ (by decide) (by decide) (by simp)]
+  · rw [f5 _ _ (by decide), v10, e5 _ _ (by decide) (by decide) (by simp)]
+  · rw [f5 _ _ (by decide), v11, e5 _ _ (by decide) (by decide) (by simp)]
+
+/-- **externally initiated close, branch `bid.go:122-158`** — the closing bid returns the principal `target − penalty` to the
+external initiator; the penalty STAYS in the module account and is booked as the module's own fee data (`extFees`, ghost `booked`);
+an accepted close pays no keeper incentive (a non-zero incentive makes every closing bid fail: the transfer goes to the empty
+keeper address); nothing is burned, collector / pool / lend reserve get nothing — **and no unaccounted remainder stays in custody**:
+the debt denomination left in the module account is exactly what is not this auction's plus the booked fees. -/
+theorem external_close_distributes (e : Env) (hw : WfEnv e) (hk : e.kind = .external) (s s' : St) (who : Nat) (amt dt : Int)
+    (hi : Inv e s) (hdt : 0 ≤ dt) (h : bidE e s who amt dt = .ok s') (hc : s'.auc = none) :
+    s'.bank.get .initiator .debt = s.bank.get .initiator .debt + (e.target - e.fee) ∧
+    s'.booked = s.booked + e.fee ∧ s'.extFees = s.extFees + e.fee ∧ cutOf e true = 0 ∧
+    s'.burned = s.burned ∧ s'.netFees = s.netFees ∧
+    s'.bank.get .collector .debt = s.bank.get .collector .debt ∧ s'.bank.get .keeper .debt = s.bank.get .keeper .debt ∧
+    s'.bank.get .pool .debt = s.bank.get .pool .debt ∧ s'.bank.get .lendres .debt = s.bank.get .lendres .debt ∧
+    s'.bank.get .auction .coll = s'.otherC ∧ s'.bank.get .auction .debt + s'.short = s'.otherD + s'.booked := by
+  obtain ⟨hinv, s2, s3, hd, e1, e2, e3, e4, e5, _, f1, f2, f3, f4, f5, _⟩ := bidE_close hw hi hdt h hc
+  obtain ⟨x1, _, _, x4, _, x6, x7, x8, x9, x10, x11, x12, x13, _⟩ := distribute_external hk hd
+  obtain ⟨_, _, c3, c4⟩ := hinv.closed hc
+  refine ⟨?_, by rw [f4, x6, e4], by rw [f3, x7, e3], x1, by rw [f1, x8, e1], by rw [f2, x9, e2], ?_, ?_, ?_, ?_, c3, c4⟩
+  · rw [f5 _ _ (by decide), x4, e5 _ _ (by decide) (by decide) (by simp)]
+  · rw [f5 _ _ (by decide), x10, e5 _ _ (by decide) (by decide) (by simp)]
+  · rw [f5 _ _ (by decide), x11, e5 _ _ (by decide) (by decide) (by simp)]
+  · rw [f5 _ _ (by decide), x12, e5 _ _ (by decide) (by decide) (by simp)]
+  · rw [f5 _ _ (by decide), x13, e5 _ _ (by decide) (by decide) (by simp)]
+
+/-- **lend-initiated close, branch `bid.go:191-202` → `MsgCloseDutchAuctionForBorrow`** — the closing bid hands the whole target to
+the debt pool; from there the liquidation penalty and the reserve's share of the interest go to the lend reserve and the bridge
+asset of a cross-pool borrow returns to the collateral's pool (`lend_close_split`); nothing is burned, nothing booked, collector /
+keeper / initiator get nothing — **and no unaccounted remainder stays in custody**. -/
+theorem lend_close_distributes (e : Env) (hw : WfEnv e) (hk : e.kind = .lend) (s s' : St) (who : Nat) (amt dt : Int)
+    (hi : Inv e s) (hdt : 0 ≤ dt) (h : bidE e s who amt dt = .ok s') (hc : s'.auc = none) :
+    s'.bank.get .pool .debt = s.bank.get .pool .debt + e.target - e.lendPen - DutchV2.posPart e.lendInt ∧
+    s'.bank.get .lendres .debt = s.bank.get .lendres .debt + e.lendPen + DutchV2.posPart e.lendInt ∧
+    s'.bank.get .pool .transit = s.bank.get .pool .transit - DutchV2.posPart e.bridged ∧
+    s'.bank.get .poolIn .transit = s.bank.get .poolIn .transit + DutchV2.posPart e.bridged ∧
+    s'.burned = s.burned ∧ s'.netFees = s.netFees ∧ s'.extFees = s.extFees ∧ s'.booked = s.booked ∧
+    s'.bank.get .auction .coll = s'.otherC ∧ s'.bank.get .auction .debt + s'.short = s'.otherD + s'.booked := by
+  obtain ⟨hinv, s2, s3, hd, e1, e2, e3, e4, e5, _, f1, f2, f3, f4, f5, _⟩ := bidE_close hw hi hdt h hc
+  obtain ⟨_, l2, l3, l4, l5, _, _, l8, l9, l10⟩ := distribute_lend hk hd
+  obtain ⟨q1, q2, q3, q4, q5, q6, q7, _⟩ := distribute_ok hd
+  obtain ⟨_, _, c3, c4⟩ := hinv.closed hc
+  have hbk : s3.booked = s2.booked := by
+    -- the lend branch books nothing
+    unfold distribute at hd
+    split at hd
+    · cases hd
+    · rw [hk] at hd
+      simp only at hd
+      iterate 6 (all_goals (try (split at hd)))
+      all_goals (first | (cases hd; rfl) | cases hd)
+  refine ⟨?_, ?_, ?_, ?_, by rw [f1, l8, e1], by rw [f2, l9, e2], by rw [f3, l10, e3], by rw [f4, hbk, e4], c3, c4⟩
+  · rw [f5 _ _ (by decide), l2, e5 _ _ (by decide) (by decide) (by simp)]
+  · rw [f5 _ _ (by decide), l3, e5 _ _ (by decide) (by decide) (by simp)]
+  · rw [f5 _ _ (by decide), l4, e5 _ _ (by decide) (by decide) (by simp)]
+  · rw [f5 _ _ (by decide), l5, e5 _ _ (by decide) (by decide) (by simp)]
+
 /-- **second-generation lend close, the split** (`liquidate.go:721-813`): of the target handed over by the auction module the
 debt pool keeps `target − penalty − reserve interest`, the lend reserve receives `penalty + reserve interest`, the bridge asset of a
 cross-pool borrow returns to the pool the collateral was lent to; no collateral moves, nothing is burned, no fee is booked. -/
@@ -449,6 +534,22 @@ theorem debt_custody_every_history (e : Env) (hw : WfEnv e) (a : Auc) (b : Bank)
 def wEnv : Env := { kind := .vault, decC := 1000000, decD := 1000000, target := 1120000, fee := 120000, bonus0 := 0, coll0 := 1000000, isKeeper := true, incentive := 100000000000000000, minUsd := 100000, T := 3600, premium := 1200000000000000000, discount := 700000000000000000, cmst := true }
 
 def wAuc (price orc : Dec) : Auc := { coll := 1000000, debt := 1120000, bonus := 0, price := price, init := price, orc := orc, ord := 1000000000000000000000000, start := 0, end_ := 3600 }
+
+/-- non-vacuity of the three branch theorems: a keeper-initiated vault position, an external one and a lend one (penalty 50 000,
+reserve interest 700) are each closed by one market bid -/
+def xEnv : Env := { wEnv with kind := .external, isKeeper := false, incentive := 0 }
+def lEnv : Env := { wEnv with kind := .lend, isKeeper := false, lendPen := 50000, lendInt := 700 }
+def cBank : Bank := [((.auction, .coll), 1000000), ((.bidder 1, .debt), 10000000)]
+
+def cClose (e : Env) : St := run e (initSt e (wAuc 1680000000000000000000000 1400000000000000000000000) cBank none) [.bid 1 5000000 1000000]
+
+example :
+    (cClose wEnv).auc = none ∧ (cClose wEnv).burned = 1000000 ∧ (cClose wEnv).bank.get .keeper .debt = 12000 ∧
+    (cClose wEnv).bank.get .collector .debt = 108000 ∧ (cClose wEnv).netFees = 108000 ∧ (cClose wEnv).bank.get .auction .debt = 0 ∧
+    (cClose xEnv).auc = none ∧ (cClose xEnv).bank.get .initiator .debt = 1000000 ∧ (cClose xEnv).booked = 120000 ∧
+    (cClose xEnv).extFees = 120000 ∧ (cClose xEnv).burned = 0 ∧ (cClose xEnv).bank.get .auction .debt = 120000 ∧
+    (cClose lEnv).auc = none ∧ (cClose lEnv).bank.get .pool .debt = 1069300 ∧ (cClose lEnv).bank.get .lendres .debt = 50700 ∧
+    (cClose lEnv).burned = 0 ∧ (cClose lEnv).booked = 0 ∧ (cClose lEnv).bank.get .auction .debt = 0 := by decide
 
 /-- D7: two limit bidders (400 000 each) wait at premium 9; a second seized position of the same pair shares the module account -/
 def d7Bank : Bank := [((.auction, .coll), 2000000), ((.bidder 1, .debt), 10000000), ((.bidder 2, .debt), 10000000), ((.bidder 4, .debt), 10000000)]
